@@ -150,8 +150,8 @@ CLAIMS["C19"] = {
 CLAIMS["C01"] = {
     "technique": "rapid-generated topologies and traffic plans through the public API, per-router capture filters, hop-by-hop model walk (NAPT addresses learned and constrained), exact quiescence, then concurrent replay of established flows",
     "engine": "rapid-models",
-    "text": "Generated-input search: root router, up to 4 child routers nested to depth 3 with every NAPT mapping x filtering combination, static or automatic external addresses, or 1:1 NAT; hosts with automatic, single and double static addresses; specific, wildcard and loopback sockets. Every router carries a pass-through capture filter. 5..40 sequential sends (other sockets, replies to observed translated sources, unbound ports, unroutable and loopback addresses, NAT external addresses; payloads 0..1500 incl. really empty; buffer overwritten after the write); after each the network is quiescent (all router loops parked, all queues empty) and the model of Appendix A decides: delivered iff admitted, exactly once, byte-identical, only to the socket bound to the destination, showing the translated source; then the established flows are replayed concurrently in bursts: per-flow order, no duplicates, no foreign socket, completeness. Exploration only; schedules are those the runtime produces.",
-    "note": "Trusted: the model (harness/vnete2e/model.go, harness/vnat/model.go); goroutine states from runtime.Stack plus read-only shims for queue lengths decide quiescence. NAT lifetimes are 1 h (expiry is C02/C03). The yield-instrumented variant of the router is not built (DESIGN.md §6).",
+    "text": "Generated-input search: root router, up to 4 child routers nested to depth 3 with every NAPT mapping x filtering combination, static or automatic external addresses, or 1:1 NAT; hosts with automatic, single and double static addresses; specific, wildcard and loopback sockets. Every router carries a pass-through capture filter. 5..40 sequential sends (other sockets, replies to observed translated sources, unbound ports, unroutable and loopback addresses, NAT external addresses; payloads 0..1500 incl. really empty; buffer overwritten after the write); after each the network is quiescent (all router loops parked, all queues empty) and the model of Appendix A decides: delivered iff admitted, exactly once, byte-identical, only to the socket bound to the destination, showing the translated source; then the established flows are replayed concurrently in bursts: per-flow order, no duplicates, no foreign socket, completeness. A controlled-schedule variant re-starts the routers inside a scheduler session (every router loop becomes a task) and lets 2..3 sender tasks write on the established flows under rapid-drawn schedules over every lock/channel/select operation of router.go, net.go, conn.go, conn_map.go, chunk_queue.go and nat.go, with the same oracle at quiescence. Exploration only.",
+    "note": "Trusted: the model (harness/vnete2e/model.go, harness/vnat/model.go); goroutine states from runtime.Stack plus read-only shims for queue lengths decide quiescence. NAT lifetimes are 1 h (expiry is C02/C03).",
     "design_ref": "DESIGN.md §3 C01, Appendix A",
 }
 
